@@ -396,6 +396,11 @@ pub fn run_c06(sc: &HistSc, st: &mut Stats) -> HistOutcome {
         }
         if let Some(k) = op.key() { st.bump(if k.len() > 16 { "keys.spilled_to_heap" } else { "keys.inline" }); }
         if cloned[r] { st.bump("probe.mutation_after_clone"); }
+        // `remove_unique` on a duplicated key: the rustdoc says only that an error is returned. The
+        // current behaviour (all matches removed, by `remove` + completion in Drop) is what the model
+        // follows; leaving the object untouched would be an equally documented outcome, so the model
+        // keeps the state before the operation at hand and adopts it if that is what the object did.
+        let before_remove_unique: Option<M> = match op { Op::RemoveUnique { r, k } if model::positions(&ms[*r], k).len() >= 2 => Some(ms[*r].clone()), _ => None };
         let exp = apply_model(op, &mut ms);
         let res = match apply_real(op, &mut regs, &mut maps) {
             Applied::Ok(res) => res,
@@ -412,6 +417,9 @@ pub fn run_c06(sc: &HistSc, st: &mut Stats) -> HistOutcome {
             };
             st.bump(kind);
             if c.then != Then::Exhaust && c.pull < all.len() { nontrivial = true; if c.then == Then::Unwind { st.bump("cancel.unwound_with_work_left_for_drop"); } }
+        }
+        if let (Some(prev), Res::Unique(Err(_))) = (&before_remove_unique, &res) {
+            if same_entries(&regs[r], prev) { ms[r] = prev.clone(); st.bump("probe.remove_unique_duplicate_left_object_untouched"); }
         }
         if let Err(m) = compare_result(op, &res, &exp) { return HistOutcome { violation: viol("c06.result", step, op, m), outcome: d.finish(), nontrivial }; }
         // entries of every register (the named one changed; the others must not have)
